@@ -41,7 +41,7 @@ P = {
             "Partial: halting on invalid token lists; the error span is additionally compared with an Earley oracle's least dead prefix and the token texts on every generated invalid file.",
             "§0, §7 C09", "translator + kernel evaluation of the validator + Earley oracle"),
     "C10": ("proof", "Theorems, for every AST: validate_ast = Ok ⇔ WellFormed (Spec/WellFormed.lean: exactly one start naming a defined nonterminal, exactly one terminal enum, every reference defined in its own namespace, pairwise distinct top-level names, per-enum distinct variant names and symbol sequences, capitalisation) — C10_ok_sound, C10_ok_iff_wellFormed; validate_ast = Err e ⇒ Truthful e (variant, name or sequence and both byte positions describe a violation present at those positions, with any combination of simultaneous violations) — C10_err_truthful; Truthful e ⇒ ¬WellFormed (the two specifications agree); no panicking path. "
-            "Tie to the code: the model's answer is compared with the implementation's on files with 0–3 injected violations of 28 kinds (incl. cross-namespace names), and Truthful/WellFormed are also evaluated by an independent Python oracle on the implementation's answers.",
+            "Tie to the code: the model's answer is compared with the implementation's on files with 0–3 injected violations of 29 kinds (incl. cross-namespace names), and Truthful/WellFormed are also evaluated by an independent Python oracle on the implementation's answers.",
             "§7 C10", "Ok⇔WellFormed + Err⇒Truthful theorems; model=impl on injected violations"),
     "C11": ("proof", "Theorems: a conflict report names a state of the automaton, two items of that state, and they demand different parser actions on the same lookahead column (C11_payload; every grammar, every automaton); for every validated file the attached automaton — the machine validated_ast_to_machine built, conflicts or not — has exactly the item sets (lookaheads included) generated by the LALR(1) propagation rules over its transition graph w.r.t. a closed and sound FIRST map, one state per core, functional transitions (C11_attached_automaton, from the generator invariants). "
             "It is the canonical LR(1) collection merged by core (C17_is_lalr1). "
